@@ -23,7 +23,7 @@ theorem round_marked_empty (p : Parser) (h : Marked p ∧ ¬ Fold (bpOf p)) (hk 
   have hs' : ¬ (unmark p).stash.length ≠ 0 := hs
   rw [if_neg hk', if_neg hs']
 
-/-- the marked line turns out complete, but it did not fit: passed over -/
+/-- the marked line turns out complete with `skip` set (allocation failure, not reachable under `Rel`): passed over -/
 theorem round_marked_skip (p : Parser) (h : Marked p ∧ ¬ Fold (bpOf p)) (hk : p.skip = true) :
     round p = ({ unmark p with skip := false, stash := [] }, none) := by
   rw [round_marked' p h]; unfold procStep
@@ -55,8 +55,8 @@ theorem round_spec (p : Parser) (A : Abs) (h : Pre p A) (hne : rest p ≠ []) :
         | false => rfl
         | true => exact absurd ((fold_iff c).2 hx) (by rw [← hbp]; exact hc.2)
       have hpend : A.sc.pend = true := h.rel.mark.1 hc.1
-      obtain ⟨q', hbook, hrel, hbuf, hbix⟩ := procStep_spec (unmark p) A h.rel.fits
-        (fun ho => (h.rel.over ho).1) h.rel.comp h.rel.log rfl
+      obtain ⟨q', hbook, hrel, hbuf, hbix⟩ := procStep_spec (unmark p) A h.rel.skip
+        h.rel.stash h.rel.comp h.rel.log rfl
       have hrest : rest q' = c :: r := by
         unfold rest; rw [hbuf, hbix]; exact hr
       refine ⟨q', _, flushA A, by rw [flatNext_eq, round_marked' p hc]; exact hbook,
